@@ -532,6 +532,22 @@ func resolverFile(layout, schemaFile string) string {
 	return schemaFile + ".resolvers.go"
 }
 
+// ambiguous: codegen binds a field that is not marked as a resolver to the member of the Go model struct whose
+// name equals the field's Go name ignoring case and underscores (codegen/util.go equalFieldName); modelgen
+// gives every field of the type a struct member, so when two fields of a type agree that way (`uRL` -> `URl`,
+// `url` -> `URL`; `userId` / `user_id` are kept apart by freshField already) bindField reports "found more
+// than one matching field to bind" and buildField makes the field a resolver instead. gqlgen logs that and
+// goes on: the field gets a resolver method like any other.
+func (t *SType) ambiguous(f *SField) bool {
+	fold := func(n string) string { return strings.ToLower(strings.ReplaceAll(templates.ToGo(n), "_", "")) }
+	for _, g := range t.Fields {
+		if g != f && fold(g.Name) == fold(f.Name) {
+			return true
+		}
+	}
+	return false
+}
+
 func (s *Schema) flatten(layout string) []OObj {
 	var out []OObj
 	for _, t := range s.Types {
@@ -555,7 +571,7 @@ func (s *Schema) flatten(layout string) []OObj {
 			}
 		}
 		for _, f := range fs {
-			res := f.Resolver || isRoot(t.Name)
+			res := f.Resolver || isRoot(t.Name) || t.ambiguous(f)
 			if res {
 				o.HasResolvers = true
 			}
